@@ -3981,6 +3981,236 @@ Proof.
 Qed.
 Transparent alloc.
 
+(* ------------------------------------------------------------------ (x[p] and y[q] ..) f= e *)
+Lemma handles_list_cons v vs : handles_list (v :: vs) = handles v ++ handles_list vs.
+Proof. reflexivity. Qed.
+
+Lemma handles_list_app_l a b : handles_list (a ++ b) = handles_list a ++ handles_list b.
+Proof. unfold handles_list. apply flat_map_app. Qed.
+
+Lemma drop_vals_keep vs : forall h R F, Inv h ((handles_list vs ++ R) ++ F) ->
+  Step h (handles_list vs ++ R) F (drop_vals h vs) R /\
+  (forall w t, incl (handles w) (R ++ F) -> repr h w t -> repr (drop_vals h vs) w t).
+Proof.
+  induction vs as [|v tl IH]; intros h R F I; simpl.
+  - split; [apply Step_refl; auto | auto].
+  - rewrite handles_list_cons in I.
+    assert (I0 : Inv h ((handles v ++ handles_list tl ++ R) ++ F)) by (eapply Inv_equiv; [|exact I]; occ_tac).
+    destruct (drop_val_keep h v (handles_list tl ++ R) F I0) as [S1 K1].
+    destruct (IH (drop_val h v) R F (st_inv _ _ _ _ _ S1)) as [S2 K2].
+    split.
+    + eapply Step_trans; [|exact S2]. eapply Step_equiv; [| |exact S1]. apply in_occ_equiv; occ_tac. intro; reflexivity.
+    + intros w t Iw Hw. apply K2; auto. apply K1; auto.
+      intros y Hy. apply Iw in Hy. apply in_app_or in Hy. apply in_or_app. destruct Hy; [left; apply in_or_app; right; auto | right; auto].
+Qed.
+
+Lemma map_snd_combine {A B} (l1 : list A) : forall (l2 : list B), length l2 = length l1 -> map snd (combine l1 l2) = l2.
+Proof. induction l1; destruct l2; simpl; intros; try discriminate; auto. f_equal. apply IHl1. lia. Qed.
+
+Lemma repr_list_length' h es ts : repr_list h es ts -> length es = length ts.
+Proof. induction 1; simpl; auto. Qed.
+
+Lemma m_read_all_ok ts : forall rs sg h G h' r,
+  Inv h (handles_list rs ++ G) -> repr_list h rs sg -> m_read_all rs h ts = (h', r) ->
+  match r with
+  | Some olds => exists tolds, read_all sg ts = Some tolds /\ repr_list h' olds tolds /\ length olds = length ts /\
+                               Step h (handles_list rs) G h' (handles_list olds ++ handles_list rs)
+  | None => read_all sg ts = None /\ Step h (handles_list rs) G h' (handles_list rs)
+  end /\ (forall w tt, incl (handles w) (handles_list rs ++ G) -> repr h w tt -> repr h' w tt).
+Proof.
+  induction ts as [|[x p] tl IH]; intros rs sg h G h' r I Hrs E; simpl in E; simpl.
+  - inversion E; subst. split; [|auto]. exists []. split; auto. split; [constructor|]. split; auto. simpl. apply Step_refl; auto.
+  - destruct (nth_error rs x) as [cur|] eqn:Ex.
+    2: { inversion E; subst. rewrite (repr_list_nth_none _ _ _ _ Hrs Ex). split; [|auto]. split; auto. apply Step_refl; auto. }
+    destruct (repr_list_nth _ _ _ _ _ Hrs Ex) as [tcur [Htc Hcur]]. rewrite Htc.
+    assert (Icur : incl (handles cur) (handles_list rs ++ handles_heap h)) by (apply incl_appl; eapply handles_list_nth; eauto).
+    destruct (m_read h cur p) as [h1 [old|]] eqn:ER.
+    2: { destruct (m_read_ok h cur tcur p (handles_list rs) G h1 None I Icur Hcur ER) as [[Hg S1] K1].
+         inversion E; subst. rewrite Hg. split; auto. }
+    destruct (m_read_ok h cur tcur p (handles_list rs) G h1 (Some old) I Icur Hcur ER) as [[told [Hg [Hold S1]]] K1].
+    rewrite Hg.
+    assert (Hrs1 : repr_list h1 rs sg).
+    { apply repr_list_as_inst. apply K1. rewrite handles_inst. apply incl_appl, incl_refl. apply repr_list_as_inst; auto. }
+    assert (I1 : Inv h1 (handles_list rs ++ handles old ++ G)).
+    { eapply Inv_equiv; [|apply S1]. occ_tac. }
+    destruct (m_read_all rs h1 tl) as [h2 r2] eqn:ER2.
+    destruct (IH rs sg h1 (handles old ++ G) h2 r2 I1 Hrs1 ER2) as [A K2].
+    assert (K12 : forall w tt, incl (handles w) (handles_list rs ++ G) -> repr h w tt -> repr h2 w tt).
+    { intros w tt Iw Hw. apply K2. eapply incl_tran; [exact Iw | apply incl_app_mid']. apply K1; auto. }
+    destruct r2 as [olds|].
+    + destruct A as [tolds [Hra [Holds [Hlen S2]]]]. inversion E; subst. rewrite Hra. split; [|exact K12].
+      exists (told :: tolds). split; auto. split.
+      * constructor; auto. apply K2; auto. apply incl_appr, incl_appl, incl_refl.
+      * split; [simpl; lia|].
+        apply Step_frame in S2.
+        eapply Step_trans; [eapply Step_equiv; [| |exact S1]|]. intro; reflexivity. intro; reflexivity.
+        eapply Step_equiv; [| |exact S2]. apply in_occ_equiv; occ_tac. rewrite handles_list_cons. occ_tac.
+    + destruct A as [Hra S2]. inversion E; subst. rewrite Hra.
+      apply Step_frame in S2.
+      assert (I2 : Inv h2 ((handles old ++ handles_list rs) ++ G)).
+      { eapply Inv_equiv; [|apply S2]. occ_tac. }
+      destruct (drop_val_keep h2 old (handles_list rs) G I2) as [S3 K3].
+      split.
+      * split; auto. eapply Step_trans; [exact S1|]. eapply Step_trans; [|exact S3].
+        eapply Step_equiv; [| |exact S2]. apply in_occ_equiv; occ_tac. occ_tac.
+      * intros w tt Iw Hw. apply K3; auto.
+Qed.
+
+Opaque alloc.
+Lemma m_and_loop_ok f : bfrag f = true -> forall ts olds tolds,
+  (forall x p, In (x, p) ts -> noslice p = true) ->
+  forall w tw h rs sg G st' ok,
+  Inv h ((handles w ++ handles_list olds) ++ handles_list rs ++ G) ->
+  repr h w tw -> repr_list h olds tolds -> length olds = length ts -> repr_list h rs sg ->
+  m_and_loop f w h rs (combine ts olds) = (st', ok) ->
+  exists sg', and_loop f tw sg (combine ts tolds) = (sg', ok) /\
+    Inv (mheap st') (handles_list (roots st') ++ G) /\ Sim st' sg' /\
+    (forall u t, incl (handles u) G -> repr h u t -> repr (mheap st') u t).
+Proof.
+  intro BF. induction ts as [|[x p] ts' IH]; intros olds tolds NS w tw h rs sg G st' ok I Hw Holds Hlen Hrs E.
+  - destruct olds; [|discriminate]. inversion Holds; subst. simpl in E. inversion E; subst; clear E. simpl.
+    assert (I0 : Inv h ((handles w ++ handles_list rs) ++ G)) by (eapply Inv_equiv; [|exact I]; simpl; occ_tac).
+    destruct (drop_val_keep h w (handles_list rs) G I0) as [S K].
+    exists sg. split; auto. split; [apply S|]. split.
+    + unfold Sim. simpl. apply repr_list_as_inst. apply K. rewrite handles_inst. apply incl_appl, incl_refl.
+      apply repr_list_as_inst; auto.
+    + intros u t Iu Hu. apply K; auto. apply incl_appr; auto.
+  - destruct olds as [|old olds']; [discriminate|]. inversion Holds as [|? told ? tolds' Hold Holds']; subst.
+    simpl in Hlen. assert (Hlen' : length olds' = length ts') by lia.
+    assert (NS' : forall x0 p0, In (x0, p0) ts' -> noslice p0 = true) by (intros; eapply NS; right; eauto).
+    assert (NSp : noslice p = true) by (eapply NS; left; eauto).
+    assert (MS : map snd (combine ts' olds') = olds') by (apply map_snd_combine; auto).
+    simpl combine in E. simpl combine. simpl in E. simpl.
+    rewrite MS in E. rewrite handles_list_cons in I.
+    (* releasing everything that is still pending *)
+    assert (DROPALL : forall hh vs rr ss, Inv hh ((handles_list vs ++ handles_list rr) ++ G) -> repr_list hh rr ss ->
+              (forall u t, incl (handles u) G -> repr h u t -> repr hh u t) ->
+              Inv (drop_vals hh vs) (handles_list rr ++ G) /\ Sim (mkst (drop_vals hh vs) rr) ss /\
+              (forall u t, incl (handles u) G -> repr h u t -> repr (drop_vals hh vs) u t)).
+    { intros hh vs rr ss Ih Hh Kh. destruct (drop_vals_keep vs hh (handles_list rr) G Ih) as [S K].
+      split; [apply S|]. split.
+      - unfold Sim. simpl. apply repr_list_as_inst. apply K. rewrite handles_inst. apply incl_appl, incl_refl.
+        apply repr_list_as_inst; auto.
+      - intros u t Iu Hu. apply K. apply incl_appr; auto. apply Kh; auto. }
+    destruct (nth_error rs x) as [cur|] eqn:Ex.
+    2: { inversion E; subst; clear E. rewrite (repr_list_nth_none _ _ _ _ Hrs Ex).
+         exists sg. split; auto.
+         change (drop_vals (drop_val (drop_val h w) old) olds') with (drop_vals h (w :: old :: olds')).
+         apply DROPALL; auto. rewrite !handles_list_cons. eapply Inv_equiv; [|exact I]. occ_tac. }
+    destruct (repr_list_nth _ _ _ _ _ Hrs Ex) as [tcur [Htc Hcur]]. rewrite Htc.
+    (* one target: the operator gets old and (a handle to) w; wl is what stays pending of w *)
+    assert (STEP : forall wl h0, Inv h0 ((handles cur ++ handles old ++ handles w) ++ handles_list (set_root rs x HNull) ++ (handles_list wl ++ handles_list olds' ++ G)) ->
+              (forall u t, repr h u t -> repr h0 u t) ->
+              forall h1 cur' ok1, m_opassign p f h0 cur old w = (h1, cur', ok1) ->
+              exists t', v_opassign_old p f told tw tcur = (t', ok1) /\
+                Inv h1 (handles_list (set_root rs x cur') ++ handles_list wl ++ handles_list olds' ++ G) /\
+                repr_list h1 (set_root rs x cur') (set_var sg x t') /\
+                (forall u t, incl (handles u) (handles_list wl ++ handles_list olds' ++ G) -> repr h u t -> repr h1 u t)).
+    { intros wl h0 I0 K0 h1 cur' ok1 EO.
+      destruct (m_opassign_old_ok p f NSp BF h0 cur tcur old told w tw _ h1 cur' ok1 I0 (K0 _ _ Hcur) (K0 _ _ Hold) (K0 _ _ Hw) EO)
+        as [t' [Ev [Hr' S1]]].
+      exists t'. split; auto.
+      assert (Hrs0 : repr_list h0 rs sg) by (apply repr_list_as_inst; apply K0; apply repr_list_as_inst; auto).
+      assert (S1' : Step h0 (handles cur ++ handles old ++ handles w) (handles_list (set_root rs x HNull) ++ (handles_list wl ++ handles_list olds' ++ G)) h1 ([] ++ handles cur')) by exact S1.
+      destruct (root_update_g h0 rs sg x cur h1 cur' t' _ [] _ Ex Hrs0 S1' Hr') as [I1 [Hrs1 K1]].
+      split; [exact I1|]. split; [exact Hrs1|]. intros u t Iu Hu. apply K1; auto. }
+    destruct ts' as [|t2 ts''].
+    + (* last target: w itself is handed over *)
+      destruct olds' as [|? ?]; [|discriminate]. inversion Holds'; subst. simpl in E. simpl.
+      destruct (m_opassign p f h cur old w) as [[h1 cur'] ok1] eqn:EO.
+      assert (I0 : Inv h ((handles cur ++ handles old ++ handles w) ++ handles_list (set_root rs x HNull) ++ (handles_list [] ++ handles_list [] ++ G))).
+      { eapply Inv_equiv; [|exact I]. intro l. pose proof (roots_split x rs cur Ex l). revert H. simpl. occ_tac. }
+      destruct (STEP [] h I0 (fun u t H => H) h1 cur' ok1 EO) as [t' [Ev [I1 [Hrs1 K1]]]].
+      rewrite Ev. simpl in I1.
+      destruct ok1; inversion E; subst; clear E; simpl.
+      * exists (set_var sg x t'). split; [reflexivity|]. split; [exact I1|]. split; [exact Hrs1|].
+        intros u t Iu Hu. apply K1; auto.
+      * exists (set_var sg x t'). split; [reflexivity|]. split; [exact I1|]. split; [exact Hrs1|].
+        intros u t Iu Hu. apply K1; auto.
+    + (* not the last: the operator gets a clone *)
+      destruct olds' as [|o2 olds'']; [discriminate|].
+      remember (t2 :: ts'') as ts' eqn:Ets'. remember (o2 :: olds'') as olds' eqn:Eolds'.
+      assert (EL : match combine ts' olds' with [] => true | _ :: _ => false end = false) by (subst; reflexivity).
+      rewrite EL in E. 
+      assert (ELt : exists c tl, combine ts' tolds' = c :: tl).
+      { subst ts'. inversion Holds'; subst; try discriminate. simpl. eauto. }
+      set (h0 := clone_val h w) in *.
+      destruct (m_opassign p f h0 cur old w) as [[h1 cur'] ok1] eqn:EO.
+      assert (Ia : Inv h ((handles w ++ handles old ++ handles_list olds' ++ handles_list rs) ++ G)).
+      { eapply Inv_equiv; [|exact I]. occ_tac. }
+      destruct (clone_val_step h (handles w ++ handles old ++ handles_list olds' ++ handles_list rs) G w Ia) as [Sc [Bc Lc]].
+      { apply incl_appl, incl_appl, incl_refl. }
+      fold h0 in Sc, Bc.
+      assert (I0 : Inv h0 ((handles cur ++ handles old ++ handles w) ++ handles_list (set_root rs x HNull) ++ (handles_list [w] ++ handles_list olds' ++ G))).
+      { eapply Inv_equiv; [|apply Sc]. intro l. pose proof (roots_split x rs cur Ex l). revert H. simpl. occ_tac. }
+      assert (K0 : forall u t, repr h u t -> repr h0 u t) by (intros; eapply repr_ext; eauto).
+      destruct (STEP [w] h0 I0 K0 h1 cur' ok1 EO) as [t' [Ev [I1 [Hrs1 K1]]]].
+      rewrite Ev.
+      assert (Hw1 : repr h1 w tw) by (apply K1; auto; simpl; apply incl_appl; rewrite app_nil_r; apply incl_refl).
+      assert (Holds1 : repr_list h1 olds' tolds').
+      { apply repr_list_as_inst. apply K1. rewrite handles_inst. apply incl_appr, incl_appl, incl_refl. apply repr_list_as_inst; auto. }
+      destruct ok1.
+      * assert (I1' : Inv h1 ((handles w ++ handles_list olds') ++ handles_list (set_root rs x cur') ++ G)).
+        { eapply Inv_equiv; [|exact I1]. simpl. occ_tac. }
+        destruct (IH olds' tolds' NS' w tw h1 (set_root rs x cur') (set_var sg x t') G st' ok I1' Hw1 Holds1 Hlen' Hrs1 E)
+          as [sg' [Ev2 [I2 [Hs2 K2]]]].
+        exists sg'. split; [exact Ev2|]. split; [exact I2|]. split; [exact Hs2|].
+        intros u t Iu Hu. apply K2; auto. apply K1; auto. apply incl_appr, incl_appr; auto.
+      * inversion E; subst; clear E. exists (set_var sg x t'). split; [reflexivity|].
+        change (drop_vals (drop_val h1 w) (o2 :: olds'')) with (drop_vals h1 (w :: o2 :: olds'')).
+        apply DROPALL; auto.
+        -- eapply Inv_equiv; [|exact I1]. rewrite !handles_list_cons. simpl. occ_tac.
+        -- intros u t Iu Hu. apply K1; auto. apply incl_appr, incl_appr; auto.
+Qed.
+Transparent alloc.
+
+Opaque alloc.
+Lemma exec_andop_g ts f e : forallb (fun t => noslice (snd t)) ts = true -> bfrag f = true -> efrag e = true ->
+  forall h rs sg st' ok G,
+  Inv h (handles_list rs ++ G) -> repr_list h rs sg ->
+  m_exec_s (mkst h rs) (SAndOp ts f e) = (st', ok) ->
+  exists sg', exec_s sg (SAndOp ts f e) = (sg', ok) /\
+    Inv (mheap st') (handles_list (roots st') ++ G) /\ Sim st' sg' /\
+    (forall u t, incl (handles u) G -> repr h u t -> repr (mheap st') u t).
+Proof.
+  intros NS BF FE h rs sg st' ok G I Hrs E. simpl in E. simpl.
+  assert (NS' : forall x p, In (x, p) ts -> noslice p = true).
+  { intros x p Hin. rewrite forallb_forall in NS. apply (NS (x, p) Hin). }
+  destruct (m_read_all rs h ts) as [h1 [olds|]] eqn:ER.
+  2: { destruct (m_read_all_ok ts rs sg h G h1 None I Hrs ER) as [[Hra S1] K1].
+       inversion E; subst. rewrite Hra. eexists; split; [reflexivity|]. apply keep_roots; auto. }
+  destruct (m_read_all_ok ts rs sg h G h1 (Some olds) I Hrs ER) as [[tolds [Hra [Holds [Hlen S1]]]] K1].
+  rewrite Hra.
+  assert (Hrs1 : repr_list h1 rs sg).
+  { apply repr_list_as_inst. apply K1. rewrite handles_inst. apply incl_appl, incl_refl. apply repr_list_as_inst; auto. }
+  assert (K1G : forall u t, incl (handles u) G -> repr h u t -> repr h1 u t).
+  { intros u t Iu Hu. apply K1; auto. apply incl_appr; auto. }
+  assert (I1 : Inv h1 (handles_list rs ++ handles_list olds ++ G)).
+  { eapply Inv_equiv; [|apply S1]. occ_tac. }
+  destruct (m_eval rs h1 e) as [h2 [w|]] eqn:EE.
+  2: { destruct (m_eval_ok e FE rs h1 (handles_list olds ++ G) sg h2 None I1 Hrs1 EE) as [[Ev S2] K2].
+       rewrite Ev. inversion E; subst; clear E.
+       assert (I2 : Inv h2 ((handles_list olds ++ handles_list rs) ++ G)).
+       { eapply Inv_equiv; [|apply S2]. occ_tac. }
+       destruct (drop_vals_keep olds h2 (handles_list rs) G I2) as [S3 K3].
+       eexists; split; [reflexivity|]. simpl. split; [apply S3|]. split.
+       - unfold Sim. simpl. apply repr_list_as_inst. apply K3. rewrite handles_inst. apply incl_appl, incl_refl.
+         apply K2. rewrite handles_inst. apply incl_appl, incl_refl. apply repr_list_as_inst; auto.
+       - intros u t Iu Hu. apply K3. apply incl_appr; auto. apply K2. apply incl_appr, incl_appr; auto. apply K1G; auto. }
+  destruct (m_eval_ok e FE rs h1 (handles_list olds ++ G) sg h2 (Some w) I1 Hrs1 EE) as [[tw [Ev [Hw S2]]] K2].
+  rewrite Ev.
+  assert (Hrs2 : repr_list h2 rs sg).
+  { apply repr_list_as_inst. apply K2. rewrite handles_inst. apply incl_appl, incl_refl. apply repr_list_as_inst; auto. }
+  assert (Holds2 : repr_list h2 olds tolds).
+  { apply repr_list_as_inst. apply K2. rewrite handles_inst. apply incl_appr, incl_appl, incl_refl. apply repr_list_as_inst; auto. }
+  assert (I2 : Inv h2 ((handles w ++ handles_list olds) ++ handles_list rs ++ G)).
+  { eapply Inv_equiv; [|apply S2]. occ_tac. }
+  destruct (m_and_loop_ok f BF ts olds tolds NS' w tw h2 rs sg G st' ok I2 Hw Holds2 Hlen Hrs2 E) as [sg' [Ev2 [I3 [Hs3 K3]]]].
+  exists sg'. split; [exact Ev2|]. split; [exact I3|]. split; [exact Hs3|].
+  intros u t Iu Hu. apply K3; auto. apply K2. apply incl_appr, incl_appr; auto. apply K1G; auto.
+Qed.
+Transparent alloc.
+
 (* ------------------------------------------------------------------ the proved fragment and the refinement theorem *)
 Definition sfrag (s : sstmt) : bool :=
   match s with
@@ -3992,7 +4222,7 @@ Definition sfrag (s : sstmt) : bool :=
   | SOpMod x p f wrap y m => noslice p && bfrag f && is_modlop m
   | SOpDef x p d f e => noslice p && bfrag f && efrag e
   | SEveryOp x p f e => false
-  | SAndOp ts f e => false
+  | SAndOp ts f e => forallb (fun t => noslice (snd t)) ts && bfrag f && efrag e
   end.
 
 Lemma m_exec_s_ok s : sfrag s = true -> forall st sg st' ok,
@@ -4038,6 +4268,11 @@ Proof.
     apply andb_prop in FR. destruct FR as [FR FE]. apply andb_prop in FR. destruct FR as [NS BF].
     assert (I0 : Inv h (handles_list rs ++ [])) by (rewrite app_nil_r; auto).
     destruct (exec_opdef_g x p d f e NS BF FE h rs sg st' ok [] I0 Hs E) as [sg' [Ev [I1 [Hs1 _]]]].
+    exists sg'. split; auto. split; auto. unfold StInv. rewrite app_nil_r in I1. auto.
+  - (* (x[p] and y[q] ..) f= e *)
+    apply andb_prop in FR. destruct FR as [FR FE]. apply andb_prop in FR. destruct FR as [NS BF].
+    assert (I0 : Inv h (handles_list rs ++ [])) by (rewrite app_nil_r; auto).
+    destruct (exec_andop_g ts f e NS BF FE h rs sg st' ok [] I0 Hs E) as [sg' [Ev [I1 [Hs1 _]]]].
     exists sg'. split; auto. split; auto. unfold StInv. rewrite app_nil_r in I1. auto.
 Qed.
 
